@@ -38,6 +38,7 @@ type C09Spec struct {
 	Exhaustive bool        `json:"exhaustive"`
 	States     int         `json:"states"` // random states per op when not exhaustive
 	Client     bool        `json:"client"`
+	Convenient bool        `json:"convenient,omitempty"` // every operation has the same default response (convenient errors)
 }
 
 type C09Data struct {
@@ -72,6 +73,30 @@ var errBoom = errors.New("verif: scripted security failure")
 func (d *c09Disp) Call(iface, method string, args []any) []any {
 	switch iface {
 	case "Handler":
+		if method == "NewError" {
+			// convenient errors: what a user's NewError typically does - 401 for a security error, else 500
+			var t reflect.Type
+			if ht := d.pkg.Type("Handler"); ht != nil && ht.Kind() == reflect.Interface {
+				if m, ok := ht.MethodByName("NewError"); ok && m.Type.NumOut() == 1 && m.Type.Out(0).Kind() == reflect.Pointer {
+					t = m.Type.Out(0).Elem()
+				}
+			}
+			if t == nil || t.Kind() != reflect.Struct {
+				return nil
+			}
+			v := reflect.New(t)
+			code := 500
+			var sec *ogenerrors.SecurityError
+			if len(args) > 1 {
+				if e, ok := args[1].(error); ok && errors.As(e, &sec) {
+					code = 401
+				}
+			}
+			if f := v.Elem().FieldByName("StatusCode"); f.IsValid() && f.CanSet() && f.Kind() == reflect.Int {
+				f.SetInt(int64(code))
+			}
+			return []any{v.Interface()}
+		}
 		d.invoked = append(d.invoked, method)
 		return nil
 	case "SecurityHandler":
